@@ -199,6 +199,8 @@ func exec(op string) (res string) {
 		return polReset(w)
 	case "pev":
 		return polEvent(w)
+	case "pconc":
+		return polConc(w)
 	case "psch":
 		return polSchema(w)
 	case "pfresh":
@@ -462,6 +464,7 @@ type run struct {
 	nClust int
 	// policy scenario
 	nPol          int
+	nConc         int
 	polUnreadRing int
 }
 
@@ -819,5 +822,5 @@ func main() {
 		ru.polScenario(i%10 == 0)
 	}
 	ru.out.Close(map[string]interface{}{"clusters": ru.nClust, "lookup_token_classes": ru.lookup,
-		"policy_histories": ru.nPol, "ring_recomputations_while_a_mapped_keyspace_is_unreadable": ru.polUnreadRing})
+		"policy_histories": ru.nPol, "conducted_schedules_of_two_mutators": ru.nConc, "ring_recomputations_while_a_mapped_keyspace_is_unreadable": ru.polUnreadRing})
 }
